@@ -290,8 +290,9 @@ func memTagsOf(t types.Type) []int {
 			ft := u.Field(i).Type()
 			ts := memTagsOf(ft)
 			if _, isArr := ft.Underlying().(*types.Array); isArr {
+				tg := fieldTag(t, i)
 				for _, x := range ts {
-					out = append(out, x+1)
+					out = append(out, x+tg)
 				}
 			} else {
 				out = append(out, ts...)
@@ -319,4 +320,18 @@ func maxTagOf(t types.Type) int {
 		}
 	}
 	return m
+}
+
+// fieldTag: the sub-block number of an array-typed field, distinct for every (struct type, field) so that
+// different embedded arrays of one object never share a block (at most 62 such fields; nested ones add up).
+var fieldTags = map[string]int{}
+
+func fieldTag(structT types.Type, field int) int {
+	k := fmt.Sprintf("%s#%d", types.TypeString(structT, nil), field)
+	if t, ok := fieldTags[k]; ok {
+		return t
+	}
+	t := len(fieldTags)%31 + 1
+	fieldTags[k] = t
+	return t
 }
